@@ -53,6 +53,12 @@ def run():
         reqs.append({"id": f"p{i}", "src": plain})
     # a callable receiver (known deviation class): wrapped vs plain relation only
     extra = [("f := {|x| [x, 5]}\n", "f", ".call(3)"), ("f := {|x| [x, 5]}\n", "f", ".{|g| g(4)}")]
+    # array values under a step with ONE parameter (literal, variable, anonymous argument): the step gets the array, as the plain call does
+    for recv_ in ("[3, 4]", "[]", "[[1, 2], [3]]", "[\"a\"]", "[nil, 1]", "(1:3).A"):
+        for step_ in (".{|xs| xs.len}", ".{|x| x}", ".{|x| [x]}", ".{\\.len}", ".^g", ".{|xs| xs.len}.{|n| n + 1}", ".{|xs| raise ValueErr.new(\"bad \" + xs.len.S)}", ".fmap({|xs| xs.len})"):
+            if step_.startswith(".fmap"):
+                continue          # fmap is the Either's own method: no plain counterpart
+            extra.append(("g := {|xs| [xs, xs.len]}\n", recv_, step_))
     for j, (pre, recv, step) in enumerate(extra):
         reqs.append({"id": f"xw{j}", "src": pre + f"say({recv}.try{step}.A)"})
         reqs.append({"id": f"xp{j}", "src": pre + f"say([{recv}{step}, nil])"})
@@ -113,8 +119,12 @@ def run():
     for j, (pre, recv, step) in enumerate(extra):
         a, b = out[f"xw{j}"], out[f"xp{j}"]
         comparisons += 1
-        if (a["events"], a["end"]) != (b["events"], b["end"]):
-            ck.reject("C13:recv=callable" if step.startswith(".call") else "C13:recv=callable:literal-step",
+        same = (a["events"], a["end"]) == (b["events"], b["end"])
+        if recv != "f" and b["end"].startswith("err:") and b["end"].count(":") >= 2:      # the plain call raises: the wrapped one holds exactly that error
+            kind, msg = b["end"].split(":", 2)[1:]
+            same = a["events"] == b["events"] + [f"out:[nil, <err {kind}: {msg}>]"] and a["end"].startswith("val:")
+        if not same:
+            ck.reject(("C13:recv=callable" if step.startswith(".call") else "C13:recv=callable:literal-step") if recv == "f" else "C13:recv=array:one-parameter-step",
                       f"{recv}.try{step}.A gives {a['events']} {a['end']} but the plain call gives {b['events']} {b['end']}",
                       {"wrapped": a, "plain": b})
     ck.sample({"chain": "".join(STEP[s] for s in cases[-1]["chain"]), "wrapped_events": out[f"w{len(cases) - 1}"]["events"][:6], "plain": out[f"p{len(cases) - 1}"]["end"]})
